@@ -21,7 +21,7 @@ ASSUMPTIONS = [
     "skipped empty labels, high*65536+low, sum with None counted 0, round(v*i), documented thresholds of grid_in_out) are the oracle's",
     "a rounding tie within 1e-6 accepts either neighbour",
 ]
-MUST = ["source_constants_as_register_contents", "small_codes_in_code_sensors", "earlier_object_polled_again", "end_to_end_results", "end_to_end_with_mppt_block", "end_to_end_labels", "bitmap4_whole_table_checked", "label_pairs_checked", "bitmap4_checked", "bitmap22_checked", "nonempty_bitmap_labels", "sum_checked", "product_checked",
+MUST = ["end_to_end_bitmap22_labels", "source_constants_as_register_contents", "small_codes_in_code_sensors", "earlier_object_polled_again", "end_to_end_results", "end_to_end_with_mppt_block", "end_to_end_labels", "bitmap4_whole_table_checked", "label_pairs_checked", "bitmap4_checked", "bitmap22_checked", "nonempty_bitmap_labels", "sum_checked", "product_checked",
         "grid_in_out_checked", "house_consumption_checked", "es_signed_powers_checked"]
 EXHAUSTIVE = {"quick": False, "thorough": True}
 
@@ -308,6 +308,12 @@ def check_e2e(spec, part):
             inv = models.family_cls(g, fam)(host, port, 0, 1, 0)
             res["inv"] = inv
             await inv.read_device_info()
+            # two-word bitmaps: give their code words contents whose label is non-empty under any reading of "high word, low word"
+            res["bitmaps"] = [sn for sn in inv.sensors() if type(sn).__name__ == "EnumBitmap22"]
+            for sn in res["bitmaps"]:
+                # (not 0xFFFF: an all-ones register is the "undefined" sentinel, read as 0 by design)
+                sim.regs[sn.offset] = rnd.choice((0x8421, 0x0001, 0xFFFE, rnd.randrange(1, 65535)))
+                sim.regs[sn._offsetL] = rnd.choice((0, 0, 0, 1, 0xFFFE, rnd.randrange(65535)))
             res["polls"] = []
             for _ in range(2):
                 try:
@@ -315,6 +321,12 @@ def check_e2e(spec, part):
                 except g.InverterError:
                     res["polls"].append(None)
             res["sensors"] = inv.sensors()
+            res["single_labels"] = {}
+            for sn in res["bitmaps"]:        # the same label asked for on its own
+                try:
+                    res["single_labels"][sn.id_] = await inv.read_sensor(sn.id_)
+                except (ValueError, g.InverterError) as e:
+                    res["single_labels"][sn.id_] = e
             if prev is not None:
                 try:
                     res["prev_poll"] = await prev["inv"].read_runtime_data()
@@ -333,6 +345,21 @@ def check_e2e(spec, part):
 
         def z(v):
             return 0 if v is None else v
+        # two-word bitmap labels (in the merged result and read singly) against the two code words the inverter holds
+        for sn in res.get("bitmaps", ()):
+            hv, lv = sim.regs.get(sn.offset, 0), sim.regs.get(sn._offsetL, 0)
+            want = rs.bitmap_labels(hv * 65536 + lv, sn._labels)
+            prec = rs.bitmap_labels((hv << (16 + lv)) & 0xFFFFFFFF if lv < 64 else 0, sn._labels)
+            seen_ = [("read_runtime_data()", d.get(sn.id_)) for d in res["polls"] if d is not None and sn.id_ in d] + \
+                    [("read_sensor()", res["single_labels"].get(sn.id_))]
+            for how_, got in seen_:
+                if isinstance(got, Exception):      # (the id is not offered any more - battery absent; which ids can be read singly is C16's subject)
+                    continue
+                part.count("end_to_end_bitmap22_labels")
+                if got != want:
+                    key = f"C13/{fam}/bitmap22/shift-precedence/{sn.id_}" if got == prec else f"C13/{fam}/bitmap22/{sn.id_}"
+                    part.violate(key, f"{fam} {cfg.get('tag')} rated={cfg.get('rated')} {how_}: {sn.id_}={got!r} but the code words at {sn.offset} / {sn._offsetL} are "
+                                      f"0x{hv:04x} / 0x{lv:04x} (high*65536+low) with the set bits {want!r}", case)
         cur = {"inv": res["inv"], "sim": sim, "fam": fam, "cfg": cfg, "host": host, "port": port, "sensors": res["sensors"]}
         todo = [(cur, d) for d in res["polls"]]
         if prev is not None and res.get("prev_poll") is not None:
